@@ -180,6 +180,13 @@ func (uconn *UConn) uLoadSession() error {
 			return err
 		}
 		if session.version == VersionTLS12 {
+			// RFC 7627, Section 5.3: a session that used extended_master_secret must not
+			// be offered in a ClientHello without the extension, the server is required
+			// to abort such a handshake. The cache may hold a session established with
+			// a different ClientHelloSpec, so fall back to a full handshake.
+			if session.extMasterSecret && !uconn.sendsExtendedMasterSecret() {
+				return nil
+			}
 			// We use the session ticket extension for tls 1.2 session resumption
 			uconn.sessionController.initSessionTicketExt(session, hello.sessionTicket)
 			uconn.sessionController.setSessionTicketToUConn()
@@ -189,6 +196,21 @@ func (uconn *UConn) uLoadSession() error {
 	}
 
 	return nil
+}
+
+// sendsExtendedMasterSecret reports whether the extension list carries extended_master_secret.
+func (uconn *UConn) sendsExtendedMasterSecret() bool {
+	for _, ext := range uconn.Extensions {
+		switch e := ext.(type) {
+		case *ExtendedMasterSecretExtension:
+			return true
+		case *GenericExtension:
+			if e.Id == extensionExtendedMasterSecret {
+				return true
+			}
+		}
+	}
+	return false
 }
 
 func (uconn *UConn) uApplyPatch() {
